@@ -5,6 +5,7 @@ import (
 	"fmt"
 	"math/big"
 	"math/rand/v2"
+	"sync"
 
 	"github.com/onflow/crypto"
 )
@@ -15,6 +16,7 @@ type c12In struct {
 	Alg  string `json:"alg"` // bls | p256 | k1
 	In   string `json:"in"`  // hex seed / private key bytes
 	WantPK bool `json:"pk"`  // record the public key (ECDSA; costs one model scalar multiplication)
+	Conc   int  `json:"conc,omitempty"` // keygen: also call from 16 goroutines, Conc times each ("identical on every call")
 }
 
 func init() {
@@ -74,16 +76,28 @@ func c12Gen(tier string, r *rand.Rand) []Case {
 			if wantPK {
 				npk++
 			}
-			cs = append(cs, mkcase("keygen-random", c12In{"keygen", a, hx(rbytes(r, l)), wantPK}))
+			cs = append(cs, mkcase("keygen-random", c12In{"keygen", a, hx(rbytes(r, l)), wantPK, 0}))
 			if tier == "thorough" || boundary[l] || (pick && l%4 == 0) {
-				cs = append(cs, mkcase("keygen-zero", c12In{"keygen", a, hx(fill(l, 0)), false}))
-				cs = append(cs, mkcase("keygen-ff", c12In{"keygen", a, hx(fill(l, 0xff)), false}))
+				cs = append(cs, mkcase("keygen-zero", c12In{"keygen", a, hx(fill(l, 0)), false, 0}))
+				cs = append(cs, mkcase("keygen-ff", c12In{"keygen", a, hx(fill(l, 0xff)), false, 0}))
 			}
 		}
 	}
+	// "identical on every call" also when the calls overlap: bursts of concurrent key generations,
+	// every result compared with the sequential one (folded into the second-call observation)
+	for i, a := range []string{"bls", "bls", "bls", "p256", "k1"} {
+		n := 20000
+		if a != "bls" {
+			n = 300
+		}
+		if tier == "thorough" {
+			n *= 4
+		}
+		cs = append(cs, mkcase("keygen-concurrent", c12In{"keygen", a, hx(rbytes(r, 32+i*7)), false, n}))
+	}
 	// the repository's pinned vectors
 	for _, a := range algs {
-		cs = append(cs, mkcase("keygen-pinned", c12In{"keygen", a, "00112233445566778899aabbccddeeff00112233445566778899aabbccddeeff", a != "bls"}))
+		cs = append(cs, mkcase("keygen-pinned", c12In{"keygen", a, "00112233445566778899aabbccddeeff00112233445566778899aabbccddeeff", a != "bls", 0}))
 	}
 	// DecodePrivateKey on edge scalars; public key = scalar * G
 	for _, a := range []string{"p256", "k1"} {
@@ -113,10 +127,10 @@ func c12Gen(tier string, r *rand.Rand) []Case {
 			if s.BitLen() > 256 {
 				continue
 			}
-			cs = append(cs, mkcase("decode-scalar", c12In{"decode", a, hx(s.FillBytes(make([]byte, 32))), true}))
+			cs = append(cs, mkcase("decode-scalar", c12In{"decode", a, hx(s.FillBytes(make([]byte, 32))), true, 0}))
 		}
 		for _, l := range []int{0, 31, 33} {
-			cs = append(cs, mkcase("decode-length", c12In{"decode", a, hx(rbytes(r, l)), false}))
+			cs = append(cs, mkcase("decode-length", c12In{"decode", a, hx(rbytes(r, l)), false, 0}))
 		}
 	}
 	return cs
@@ -147,6 +161,50 @@ func c12Run(c Case) (Result, error) {
 	if panicked {
 		return Result{}, fmt.Errorf("panic in key construction: %s", pmsg)
 	}
+	concBad, concVal, concNote := false, "", ""
+	if in.Conc > 0 && err == nil && err2 == nil {
+		// concurrent burst; the first result that differs from the sequential key replaces the
+		// second-call observation (a panic in a goroutine is reported as such)
+		want := hx(sk.Encode())
+		var mu sync.Mutex
+		var wg sync.WaitGroup
+		diff, cpanic := "", ""
+		for g := 0; g < 16; g++ {
+			wg.Add(1)
+			go func() {
+				defer wg.Done()
+				defer func() {
+					if e := recover(); e != nil {
+						mu.Lock()
+						cpanic = fmt.Sprint(e)
+						mu.Unlock()
+					}
+				}()
+				for k := 0; k < in.Conc; k++ {
+					s, e := crypto.GeneratePrivateKey(alg, append([]byte{}, input...))
+					got := "error"
+					if e == nil {
+						got = hx(s.Encode())
+					}
+					if got != want {
+						mu.Lock()
+						diff = got
+						mu.Unlock()
+						return
+					}
+				}
+			}()
+		}
+		wg.Wait()
+		if cpanic != "" {
+			concBad, concNote = true, "panic in a concurrent call: "+cpanic
+		} else if diff != "" {
+			concBad, concNote = true, "a concurrent call returned "+diff
+			if diff != "error" {
+				concVal = diff
+			}
+		}
+	}
 	ok := err == nil
 	invalid := err != nil && crypto.IsInvalidInputsError(err)
 	skHex, sk2Hex, pkHex := "", "", ""
@@ -155,6 +213,9 @@ func c12Run(c Case) (Result, error) {
 		skHex = hx(sk.Encode())
 		if err2 == nil {
 			sk2Hex = hx(sk2.Encode())
+		}
+		if concBad {
+			sk2Hex = concVal
 		}
 		p1 := sk.PublicKey()
 		p2 := sk.PublicKey()
@@ -169,5 +230,5 @@ func c12Run(c Case) (Result, error) {
 	term := fmt.Sprintf("mkCase %d%%N %s %s %s %s %s %s %s %s", kind, algc, cqs(in.In), cqbool(ok), cqbool(invalid),
 		cqs(skHex), cqs(sk2Hex), cqs(pkHex), cqbool(idem))
 	return Result{Coq: term, Key: string(c.Input), Nontrivial: true,
-		Obs: map[string]any{"ok": ok, "invalid_input_error": invalid, "sk": skHex, "sk_second_call": sk2Hex, "pk": pkHex, "pubkey_idempotent": idem}}, nil
+		Obs: map[string]any{"ok": ok, "invalid_input_error": invalid, "sk": skHex, "sk_second_call": sk2Hex, "pk": pkHex, "pubkey_idempotent": idem, "concurrent_calls": 16 * in.Conc, "concurrent_note": concNote}}, nil
 }
